@@ -331,7 +331,9 @@ func Exp2(d Decimal) Decimal {
 	var expInt int16
 
 	if dSigInt != 0 {
-		if dSigInt > exponentBias+maxDigits {
+		// 2**n is out of range on either side once n exceeds the widest
+		// decimal exponent span times log2(10) (10/3 is an upper bound)
+		if dSigInt > (exponentBias+maxDigits)*10/3 {
 			if d.Signbit() {
 				return zero(false)
 			}
